@@ -202,7 +202,7 @@ EffSort(c, n, key, rev) ==
         Desc(s) == \A i, j \in DOMAIN s : i < j => KeyOf(key, s[i]) >= KeyOf(key, s[j])
         Stable(s) == \A i, j \in DOMAIN s : (i < j /\ KeyOf(key, s[i]) = KeyOf(key, s[j]))
                                               => IndexOf(cur, s[i]) < IndexOf(cur, s[j])
-    IN  {[c EXCEPT !.ch[n] = s] : s \in {p \in Perms(cur) : IF rev = 0 THEN Asc(p) /\ Stable(p) ELSE Desc(p)}}
+    IN  {[c EXCEPT !.ch[n] = s] : s \in {p \in Perms(cur) : (IF rev = 0 THEN Asc(p) ELSE Desc(p)) /\ Stable(p)}}
 
 EffReorder(c, n, ids0) ==
     LET ids == DedupFirst(ids0)
@@ -229,10 +229,22 @@ FoldPreds(c, ts, S, succ) ==
                            ELSE [c EXCEPT !.pre[t] = c.pre[t] \cup S]
          IN  FoldPreds(c1, Tail(ts), S, succ)
 
+(* a live task-list object of the API used as an argument: its current content (links: any order) *)
+SetAsSeq(S) == CHOOSE s \in [1..Cardinality(S) -> S] : Ran(s) = S
+ListObj(c, m, kind) ==
+    CASE kind = 1 -> c.ch[m]
+      [] kind = 2 -> SetAsSeq(c.pre[m])
+      [] kind = 3 -> SetAsSeq({x \in Task : m \in c.pre[x]})
+
 Effects(c, a) ==
     CASE a.name = "SetParent"      -> EffSetParent(c, a.t, a.n)
       [] a.name = "SetChildren"    -> EffSetChildren(c, a.n, a.seq)
       [] a.name = "SetChildrenOne" -> EffSetChildren(c, a.n, <<a.t>>)
+      [] a.name = "SetChildrenFrom" ->       \* link lists are sets in the core: any order of them is admitted
+            IF a.key = 1 THEN EffSetChildren(c, a.n, ListObj(c, a.t, 1))
+            ELSE UNION {EffSetChildren(c, a.n, p) : p \in Perms(ListObj(c, a.t, a.key))}
+      [] a.name = "SetPredsFrom"   -> EffSetPreds(c, a.n, Ran(ListObj(c, a.t, a.key)))
+      [] a.name = "SetSuccsFrom"   -> EffSetSuccs(c, a.n, Ran(ListObj(c, a.t, a.key)))
       [] a.name = "ChAppend"       -> EffAppend(c, a.n, a.t)
       [] a.name = "ChInsert"       -> EffInsert(c, a.n, a.i, a.t)
       [] a.name = "ChRemove"       -> EffRemoveFrom(c, a.n, a.t)
@@ -273,6 +285,7 @@ Incoming(c, a) ==
     CASE a.name \in {"SetParent"}                 -> IF a.n = 0 THEN {} ELSE {a.t}
       [] a.name \in {"ChAppend", "ChInsert", "SetChildrenOne"} -> {a.t}
       [] a.name \in {"SetChildren", "FloorDiv"}   -> Ran(a.seq) \cap Task
+      [] a.name = "SetChildrenFrom"               -> Ran(ListObj(c, a.t, a.key))
       [] OTHER -> {}
 TargetNode(a) == a.n
 CrossWbs(c, a) ==
